@@ -923,6 +923,20 @@ class Sim(World):
                         "poll pass is skipped and the connection stays %s" % (
                             i, [o[1] for o in out if o[0] == "raised"], mks[:2], origin,
                             "in _unknownConnections" if conn in self.transports[i]._unknownConnections else "open")})
+        if honest and in_unknown and term is None and mks and r is not False and was_connected and \
+                prev_heard is not None and self.fabric.now - prev_heard <= self.timeout and \
+                mks[0] == (["addr", origin[1]] if origin[0] == "tcp" else ["readonly"]) and \
+                (origin[0] == "ro" or origin[1] in self.members[i]) and not any(o[0] == "raised" for o in out):
+            # merged read: the introduction and the frames behind it arrive in one read pass; everything behind the
+            # introduction is delivered, once, in order, by the handler installed by the introduction
+            got = [o[2] for o in out if o[0] == "deliver"]
+            if got != mks[1:]:
+                self.extra_viol.append({
+                    "signature": "transport.deliver:complete-message-not-delivered-once",
+                    "what": "transport %d: one read pass carried the introduction of %r and frames %r; delivered %r"
+                            % (i, origin, mks[1:], got)})
+            if len(mks) > 1:
+                self.cov["deliver.merged-with-introduction"] += 1
         if honest and in_unknown and term is None and mks:
             want = ["addr", origin[1]] if origin[0] == "tcp" else ["readonly"]
             if mks[0] != want:
